@@ -413,7 +413,19 @@ def run_shard(spec, rec):
             def body(args, h=h):
                 for f in run_call({'helper': h, 'args': list(args)}, rec):
                     rec.fail(**f)
-            hyp_run(table[h], body, spec['examples'], (ID, h), rec)
+            # one call in eight hands one position a value of a kind the helper does not usually get there (a blank cell, None, a number
+            # for a text, a text for a number, a boolean, a date): the two copies must still agree - same value or same exception type
+            from hypothesis import strategies as st_
+            off = st_.sampled_from([{'$blank': 1}, None, 0, 1, -1, True, False, 'x', '', 2.5, {'$dt': '2024-02-29T00:00:00'}, '#N/A', [], [[1]]])
+
+            def perturb(t):
+                args, k, i, v = t
+                args = list(args)
+                if k == 0 and args and not (isinstance(args[i % len(args)], dict) and '$crit' in args[i % len(args)]):
+                    args[i % len(args)] = v
+                return tuple(args)
+            hyp_run(st_.tuples(table[h].map(lambda a: tuple(a) if isinstance(a, (list, tuple)) else (a,)), st_.integers(0, 7), st_.integers(0, 7), off).map(perturb),
+                    body, spec['examples'], (ID, h), rec)
     else:
         seed = c05.seed_strategy()
 
